@@ -70,3 +70,10 @@ theorem repaired_then_compacted_balanced' (ss : Bytes) (mask : List Bool) (ct : 
   exact hacc.2 k hk
 
 end EaselModel.Msa
+
+namespace EaselModel.Msa
+
+/-- an SS line that is balanced WUSS without pseudoknot letters -/
+def PlainSS (s : Bytes) : Prop := (∀ c ∈ s, isAlpha c = false) ∧ ∃ ct, wuss2ct s = some ct
+
+end EaselModel.Msa
